@@ -27,7 +27,7 @@ CHECKS = {
     "C03": {
         "scenarios": [{"name": "admission"}, {"name": "bank"}, {"name": "general", "tier": "thorough"}],
         "accept": ["batch:", "nonneg:", "history-replay:balances-differ", "transfer:"],
-        "technique": "Lean: balance-table invariant lifted through the whole block transaction and every chain; rejected batch = no state change; precheck_sound: if the cumulative in-memory pass accepts a batch, recordBatch never meets an insufficient balance (exact point-wise effect of every write on the input address, by induction over the batch, PEG requests deferred); accepted batch passed the funds check. Tie: bank-era chains with requests that are rejected when they execute; applyTransactionBatch (hook) on random 1-4 transaction batches vs the model; transfers whose outputs wrap uint64; lock-step chains; conservation monitor on executed transfers",
+        "technique": "Lean: balance-table invariant lifted through the whole block transaction and every chain; rejected batch = no state change; precheck_sound: if the cumulative in-memory pass accepts a batch, recordBatch never meets an insufficient balance (exact point-wise effect of every write on the input address, by induction over the batch, PEG requests deferred); accepted batch passed the funds check. Tie: bank-era chains with requests that are rejected when they execute; applyTransactionBatch (hook) on random 1-4 transaction batches and on change-output batches (spends relying on an output back to the input address, at / below / above what is left) vs the model and the cumulative funds rule; transfers whose outputs wrap uint64; lock-step chains; conservation monitor on executed transfers",
         "assumptions": ["per-asset column sums stay below 2^63 (no check in the code; SQLite would switch to REAL)"],
         "design_ref": "DESIGN.md §7 C03",
     },
@@ -53,16 +53,16 @@ CHECKS = {
         "design_ref": "DESIGN.md §7 C06",
     },
     "C07": {
-        "scenarios": [{"name": "convert"}, {"name": "ledger"}],
+        "scenarios": [{"name": "convert"}, {"name": "ledger"}, {"name": "avgwindow"}],
         "accept": ["convert:", "conversion:", "holding:passed-over"],
-        "technique": "Lean: Convert succeeds iff its guards hold and then returns floor(amt*src/dst) within int64, src=min/dst=max under PIP-10, value non-increasing, all reject cases; a held conversion is dealt with by the first rated block after it (block-level theorem). Tie: conversions.Convert on edge/random inputs vs the model; chains with graded/ungraded patterns, recorded to_amount vs recorded rates, never executed in the submitting block",
+        "technique": "Lean: Convert succeeds iff its guards hold and then returns floor(amt*src/dst) within int64, src=min/dst=max under PIP-10, value non-increasing, all reject cases; a held conversion is dealt with by the first rated block after it (block-level theorem). Tie: conversions.Convert on edge/random inputs vs the model; chains with graded/ungraded patterns, recorded to_amount vs recorded rates, never executed in the submitting block; PIP-10 chains with short and zero-heavy averaging windows (averages taken at the last rated height, amounts = floor(in*min/max))",
         "assumptions": ["big.Int arithmetic modelled by Int/Nat"],
         "design_ref": "DESIGN.md §7 C07",
     },
     "C08": {
-        "scenarios": [{"name": "malformed"}, {"name": "dups"}, {"name": "general", "tier": "thorough"}],
+        "scenarios": [{"name": "malformed"}, {"name": "dups"}, {"name": "snapshots"}, {"name": "general", "tier": "thorough"}],
         "accept": ["liveness:", "dups:"],
-        "technique": "Lean: every model function total (termination checked), staking glue never panics, repeated entry hashes are skipped, an empty block always applies; regenerated swallow/pool-read lists. Tie: blocks with malformed / oversized / truncated / duplicated entries on all three chains on reachable ledgers, real grader libraries, lock-step; each block must apply",
+        "technique": "Lean: every model function total (termination checked), staking glue never panics, repeated entry hashes are skipped, an empty block always applies; regenerated swallow/pool-read lists. Tie: blocks with malformed / oversized / truncated / duplicated entries on all three chains on reachable ledgers, real grader libraries, lock-step; well-formed batches built to overdraw through a change output; snapshot heights whose rate set has holes (held assets or pUSD recorded at 0); each block must apply",
         "assumptions": [ORACLES, "a panic inside the grading libraries is outside the model (seen by the monitor only)", "SQLite lock escalation between the block transaction and pool reads is not modelled (known finding)"],
         "design_ref": "DESIGN.md §7 C08",
     },
@@ -95,16 +95,16 @@ CHECKS = {
         "design_ref": "DESIGN.md §7 C12",
     },
     "C13": {
-        "scenarios": [{"name": "admission"}, {"name": "ledger"}],
+        "scenarios": [{"name": "admission"}, {"name": "ledger"}, {"name": "avgwindow"}],
         "accept": ["admission:"],
-        "technique": "Lean: outcome of a single-conversion batch equals the rule table for all pairs, heights, rates, averages and balances; corollaries per rule and the converse (admissible and funded = executed); regenerated one-way set, guard and reject codes. Tie: applyTransactionBatch (hook) over pairs x heights around every activation x rate/average patterns vs the model and the table",
+        "technique": "Lean: outcome of a single-conversion batch equals the rule table for all pairs, heights, rates, averages and balances; corollaries per rule and the converse (admissible and funded = executed); regenerated one-way set, guard and reject codes. Tie: applyTransactionBatch (hook) over pairs x heights around every activation x rate/average patterns vs the model and the table; lock-step chains with runs of zero (out-of-band) quotes around ungraded blocks under PIP-10, with the availability rule stated on the recorded rates (no executed conversion on an asset with fewer than AverageRequired non-zero quotes among the last AveragePeriod rated heights)",
         "assumptions": ["PEG-destination rule from 2.0 lives in the holding path (ValidatePegTx) and is exercised by the lock-step chains"],
         "design_ref": "DESIGN.md §7 C13",
     },
     "C14": {
-        "scenarios": [{"name": "payouts"}, {"name": "ledger"}, {"name": "bank"}],
+        "scenarios": [{"name": "payouts"}, {"name": "ledger"}, {"name": "bank"}, {"name": "snapshots"}],
         "accept": ["staking:", "payouts:"],
-        "technique": "Lean: snapshot taken first in the transaction phase (current := balances before the block's conversions / transactions / rewards, past := previous current); nothing off the cadence; stakers come from the inner join (absent from either snapshot => not considered); total paid = min(total stake, cap), exact when over, full when under, proportional shares; stake uses min(current, past) and ignores PEG; staking order independent of map iteration (C01). Tie: ConversionSupplySet vs the model on random sets with ties; lock-step chain over two snapshot heights (one ungraded) with the staking specification recomputed from the snapshot tables",
+        "technique": "Lean: snapshot taken first in the transaction phase (current := balances before the block's conversions / transactions / rewards, past := previous current); nothing off the cadence; stakers come from the inner join (absent from either snapshot => not considered); total paid = min(total stake, cap), exact when over, full when under, proportional shares; stake uses min(current, past) and ignores PEG; staking order independent of map iteration (C01). Tie: ConversionSupplySet vs the model on random sets with ties; lock-step chain over two snapshot heights (one ungraded) with the staking specification recomputed from the snapshot tables; snapshot rotation checked against the balance dumps (current = balances before the block, past = previous current) on 2.0.2 chains whose snapshot heights have unrated held assets / unrated pUSD",
         "assumptions": ["every per-asset valuation fits in int64 (otherwise the block fails: C08)"],
         "design_ref": "DESIGN.md §7 C14",
     },
